@@ -681,20 +681,44 @@ class Hugr(Mapping[Node, NodeData], Generic[OpVarCov]):
 
     def _to_serial(self) -> SerialHugr:
         """Serialize the HUGR."""
-        node_it = (node for node in self._nodes if node is not None)
+        # non contiguous indices will be erased: nodes are renumbered in index
+        # order, except that a node is never listed before its parent (indices
+        # reused after a deletion can be smaller than the parent's)
+        order: list[int] = []
+        listed: set[int] = set()
+        pending = [idx for idx, data in enumerate(self._nodes) if data is not None]
+        while pending:
+            waiting = []
+            for idx in pending:
+                parent = cast(NodeData, self._nodes[idx]).parent
+                if parent is None or parent.idx in listed:
+                    order.append(idx)
+                    listed.add(idx)
+                else:
+                    waiting.append(idx)
+            if len(waiting) == len(pending):
+                # unreachable for a well formed hierarchy
+                order.extend(waiting)
+                break
+            pending = waiting
+        new_idx = {old: new for new, old in enumerate(order)}
+        node_datas = [cast(NodeData, self._nodes[idx]) for idx in order]
+
+        def _serialize_node(idx: int, data: NodeData) -> SerialOp:
+            parent = data.parent.idx if data.parent is not None else idx
+            return SerialOp(root=data.op._to_serial(Node(new_idx[parent])))  # type: ignore[arg-type]
 
         def _serialize_link(
             link: tuple[_SO, _SI],
         ) -> tuple[tuple[NodeIdx, PortOffset], tuple[NodeIdx, PortOffset]]:
             src, dst = link
             s, d = self._constrain_offset(src.port), self._constrain_offset(dst.port)
-            return (src.port.node.idx, s), (dst.port.node.idx, d)
+            return (new_idx[src.port.node.idx], s), (new_idx[dst.port.node.idx], d)
 
         return SerialHugr(
-            # non contiguous indices will be erased
-            nodes=[node._to_serial(Node(idx, {})) for idx, node in enumerate(node_it)],
+            nodes=[_serialize_node(idx, data) for idx, data in zip(order, node_datas)],
             edges=[_serialize_link(link) for link in self._links.items()],
-            metadata=[node.metadata if node.metadata else None for node in node_it],
+            metadata=[data.metadata if data.metadata else None for data in node_datas],
         )
 
     def _constrain_offset(self, p: P) -> PortOffset:
